@@ -1,4 +1,9 @@
 -- Root of the `ZV` library: models, proofs, property theorems.
 import ZV.Model.Decimal
 import ZV.Model.Numeric
+import ZV.Model.Lexer
 import ZV.Proofs.Decimal
+import ZV.Proofs.Numeric
+import ZV.Proofs.Lexer
+import ZV.Props.C05
+import ZV.Props.C11
